@@ -97,6 +97,8 @@ def scn_proto(ctx):
     wait_done(f, sched.now() + 20)
     e.stop()
     comp.join(50)
+    # done() turns true before the done-callbacks have run: let the resolving thread finish them
+    sched.vsleep_until(sched.now() + 8 * eps)
     final = outcome(f)
     ctx.check("future-finishes", final[0] != "pending", "%s future still pending after the underlying work finished (%s)" % (name, kind))
     for rec in obs:
